@@ -3,6 +3,7 @@ Model of the link report of apps/m17-demod.cpp (`dump_type`, `dump_lsf` with dis
 audio handler writes.  Executed by the driver against the real handlers (op `app_lsf`).
 -/
 import M17.Model.Callsign
+import M17.Model.Bytes
 
 namespace M17.App
 
@@ -39,5 +40,8 @@ def report (display : Bool) (lsf : List Nat) : String :=
 
 /-- `demodulate_audio`: bytes written to stdout for one stream frame, in either branch -/
 def audioBytes (noiseBlanker : Bool) (cost : Nat) : Nat := if noiseBlanker && cost > 80 then 320 + 320 else 320 + 320
+
+/-- `decode_bert`: the bits handed to the PRBS validator — bytes 0..23 MSB first (`b & 0x80; b <<= 1`), then the top five bits of byte 24 -/
+def bertBits (bytes : List Nat) : List Bool := (List.range 197).map (Bytes.getBit bytes)
 
 end M17.App
